@@ -148,6 +148,19 @@ PROPS["C14"] = dict(
     assumptions=["arity oracle tools/functional_arity.json reviewed by hand"],
 )
 
+PROPS["C13"] = dict(
+    level="proof",
+    claim="Proof, for every launch geometry (thread, block, block size as symbols) and output ranks 1..3, that the shared per-thread body writes nothing when the global id block*block_size+thread is not below the output size or when the result is empty, and - rank 1 - that thread idx stores exactly result[idx] at out[idx] leaving other positions alone; plus the structural rule that the CUDA and HIP kernel entries rebuild the output from the raw triple, re-apply the function and call that same body with ids from the matching vendor builtins. Equality with host evaluation for rank >= 2 (flat-index round trip) and SYCL/OpenCL entries are not decided.",
+    note=E1_NOTE + " " + E2_NOTE + " CUDA/HIP headers are parsed with declaration stubs (/verif/stubs) for the vendor builtins; host-API parts of those headers do not parse and are ignored.",
+    technique=E1_TECH + " + libTooling sibling rule on kernel entry templates",
+    e1=[dict(tu="c13_kernel.cpp")],
+    e2=[dict(rule="R-KSIB")],
+    rule=E1_RULE + "; E2: one instance per vendor kernel entry template",
+    explanation="The guard clause quantifies over all schedules trivially because each thread's effect is a function of its own ids only; the obligation is stated for symbolic ids.",
+    not_decided="out[idx] = host element idx for rank>=2 (needs the mixed-radix round trip), SYCL and OpenCL entry points (headers need vendor SDKs), host-side launch size arithmetic",
+    assumptions=["output buffer and result do not alias", "buffer position k below 2^40"],
+)
+
 HOOK_COMMITS = []
 NOT_APPLICABLE = [
  dict(property_id="C05", reason="slice lengths go through ceil(float) and an 8-way sign/None case split on run-time values; no sound static argument in reach, and weaker structural proxies are not necessary conditions (DESIGN §3 C05)"),
